@@ -168,9 +168,10 @@ def _i(x):
 TGS = {"quick": TG_QUICK, "union": TG_UNION, "full": TG_FULL, "deep": TG_DEEP,
        "sub11": (11, ("bare", "List")), "sub10": (10, ("bare", "List", "TDField")), "sub14": (14,), "sub17": (17, ("bare", "DictValue")), "sub8": (8, ("bare",)),
        "sub24": (24, ("bare",)),
-       "mix9": (9, ("bare",), "MEMBERS2", True), "mix13": (13, ("bare", "List"), "MEMBERS2", True)}
+       "mix9": (9, ("bare",), "MEMBERS2", True), "mix13": (13, ("bare", "List"), "MEMBERS2", True),
+       "nest8": (8, ("bare",), "MEMBERS3", True), "nest4": (4, ("bare",), "MEMBERS3", True)}
 VGS = {"tiny": G_TINY, "small": G_SMALL, "quick": G_QUICK, "medium": G_MEDIUM}
-TAPE_N = {"quick": 24, "union": 26, "full": 30, "deep": 40, "sub10": 13, "sub11": 14, "sub14": 17, "sub17": 20, "sub8": 11, "sub24": 27, "mix9": 13, "mix13": 17}
+TAPE_N = {"quick": 24, "union": 26, "full": 30, "deep": 40, "sub10": 13, "sub11": 14, "sub14": 17, "sub17": 20, "sub8": 11, "sub24": 27, "mix9": 13, "mix13": 17, "nest8": 13, "nest4": 9}
 REG = {}
 for _gn, _g in TGS.items():
     for _pairs in (False, True):
